@@ -2,6 +2,16 @@
 HOOK_COMMITS = []
 NOT_APPLICABLE = {}
 CLAIMS = {
+    "C11": dict(
+        text="spec/ElasticLaws.tla computes in exact rationals the compliance (engineering notation, global axes) of every case: isotropic, transversely isotropic, orthotropic (documented compliances in material axes) "
+        "and anisotropic (given law, Voigt and Kelvin-Mandel input), rotated by exact rational frames (in-plane, about y, generic 3-D quaternion rotations, axis permutation) through the Bond strain transformation, 3D and the "
+        "plane-stress sub-block, with unit and non-unit axis vectors. The compliance the library reports is converted from Kelvin-Mandel to engineering components, snapped to rationals and compared EXACTLY by TLC (a TLC "
+        "mismatch that the floats do not confirm at 1e-10 is a machinery error, never a verdict). On the same cases: stiffness symmetric positive definite, C S = I, plane strain = sub-block of the inverse of the exact 3-D "
+        "compliance, change-of-basis matrices orthogonal (also for non-unit axes), parameter change visible at the next read, per-element parameter fields.",
+        note="Trusted: TLC, the transcription of the documented compliances, snapping (denominators <= 2e6 within 1e-12 relative; constants chosen so that rotated entries stay on that lattice).",
+        technique="exact TLA+ model of the laws (Bond transformation over rationals); reported compliances validated against it by TLC (trace validation over the case lattice)",
+        design_ref="DESIGN.md 6/C11",
+    ),
     "C19": dict(
         text="(1) spec/Plasticity1D.tla integrates von Mises plasticity with linear isotropic + Prager kinematic hardening under uniaxial stress exactly over rationals (closed-form return map); TLC checks admissibility, "
         "dgamma >= 0, dgamma*f = 0, monotone accumulated plastic strain, dissipation = sigma_y*dgamma >= 0, exact elasticity before yield on every path of the increment lattice (depth 4 quick / 5 thorough); every path is "
